@@ -6,7 +6,8 @@ import dbcommon as D
 
 class C11(Prop):
     id = "C11"
-    translators = []
+    # gen_session_tables: ReadHeader::get and the database defaults (theorems C11_tables_*, Outstation/TablesAgree.v)
+    translators = ["gen_variations", "gen_qualifiers", "gen_functions", "gen_session_tables"]
     proof_targets = ["Outstation/StaticDbProofs.vo"]
     property_file = "Properties/C11.v"
     theorems = []
@@ -50,4 +51,4 @@ class C11(Prop):
 
 import sessmix
 PROP = sessmix.attach(C11(), sessmix.c11_cases, sessmix.c11_oracle, 120, 3000,
-                      extra_targets=["Outstation/SessionC11Proofs.vo"])
+                      extra_targets=["Outstation/SessionC11Proofs.vo", "Outstation/TablesAgree.vo"])
